@@ -4759,10 +4759,22 @@ class WBEMConnection:  # pylint: disable=too-many-instance-attributes
                 QueryLanguage=QueryLanguage,
                 Query=Query)
 
-            if result is None:
-                instances = []
-            else:
-                instances = [x[2] for x in result[0][2]]
+            instances = []
+            if result is not None:
+                for item in result[0][2]:
+                    # Each item is the tuple (name, attrs, object) for one
+                    # VALUE.OBJECT* element.
+                    if not isinstance(item, tuple) or len(item) != 3 or \
+                            not isinstance(item[2], CIMInstance):
+                        obj = item[2] \
+                            if isinstance(item, tuple) and len(item) == 3 \
+                            else item
+                        raise CIMXMLParseError(
+                            _format("Expecting CIMInstance object in result "
+                                    "list, got {0} object",
+                                    obj.__class__.__name__),
+                            conn_id=self.conn_id)
+                    instances.append(item[2])
 
             for instance in instances:
 
